@@ -379,6 +379,7 @@ func (ctx *Ctx) rloop(path []byte, r *node, nodes []node) {
 			}
 			// Mark RL as inuse and loop over var using inspector.
 			rl.stat = rlInuse
+			rl.brk = false
 			ctx.Err = v.ins.Loop(v.val, rl, &rl.kbuf, ctx.bufS[1:]...)
 			rl.stat = rlFree
 			return
